@@ -67,7 +67,9 @@ def main(argv: list[str]) -> int:
         props = [p for p in argv[1:] if p in props]
     n = 48 if mode == "light" else int(os.environ.get("DSIM_SELFTEST_N", "2000"))
     vseed = int(os.environ.get("VERIF_SEED", "0") or 0)
-    bad = 0
+    from . import ref_selftest
+
+    bad = ref_selftest.run()
     for p in props:
         # C17 runs are ~100x more expensive than the others: fewer seeds in light mode
         bad += determinism(p, (12 if p == "C17" and mode == "light" else n), vseed + 7919)
